@@ -1,2 +1,3 @@
 pub mod c09;
 pub mod c10;
+pub mod c11;
